@@ -1,15 +1,358 @@
-"""Loops with invariants (side-car loop contracts).  Filled in for C13 / list encodings."""
+"""Loops with invariants (side-car loop contracts) and ghost spec functions with unfolding.
+
+Loop rule (Hoare/Floyd, generated per path):
+
+    assert I                                   obligations  "<fn>#<k>/init/<label>"
+    havoc the declared variables; assume I     (an ARBITRARY iteration)
+    if not guard:  continue after the loop     (exit state = any state with I and not guard)
+    body                                       (break: continue after the loop with that state;
+                                                return / raise: leave the function from there)
+    assert I, variant decreased and >= 0,      obligations  "<fn>#<k>/preserved/<label>", ".../variant",
+    assert nothing outside the havoc set changed             ".../frame"
+    end of path (cut)
+
+The frame obligation makes the havoc declaration checked, not trusted: if one arbitrary iteration
+changes nothing but the declared variables, no iteration does.
+
+A loop contract is registered from a contract file:
+
+    @loop_spec("pkg.mod:func", ordinal, havoc={"idx": Int, "out": BytesList})
+    def inv(idx, out, buf):            # parameters are bound to the function's locals of the same name
+        invariant("range", 0 <= idx)   # asserted / assumed depending on the phase
+        decreases(len(buf) - idx)
+
+Ghost spec functions (`@ghost_function`): a (possibly recursive) function of the contract file whose
+calls are uninterpreted applications; `unfold(f, *args)` executes the body once and assumes
+`f(args) == body`, after the obligation `ghost-wf/<f>` that every recursive call in the body has a
+smaller, non-negative measure (so the definition is a well-founded recursion, hence consistent).
+"""
 from __future__ import annotations
-from .explore import Unsupported
+import ast
+import z3
+
+from .values import *  # noqa
+from .values import NOT_IMPLEMENTED
+from . import ops
+from .ops import as_int, zi, is_intlike
+from .explore import Unsupported, PathAbort, PathInfeasible
+
+SeqSeqSort = z3.SeqSort(SeqSort)
+
+
+# ------------------------------------------------------------------------------------------------
+# locating loop contracts
+# ------------------------------------------------------------------------------------------------
+def _loops_in_order(fnode):
+    out = []
+
+    def visit(n):
+        for child in ast.iter_child_nodes(n):
+            if isinstance(child, (ast.FunctionDef, ast.AsyncFunctionDef, ast.Lambda, ast.ClassDef)):
+                continue
+            if isinstance(child, (ast.While, ast.For)):
+                out.append(child)
+            visit(child)
+    visit(fnode)
+    return out
 
 
 def loop_spec(interp, node, fr):
+    specs = getattr(interp, "loop_specs", None)
+    if not specs or fr.func is None:
+        return None
+    q = fr.func.qualname
+    cands = [k for k in specs if k[0] == q]
+    if not cands:
+        return None
+    cache = getattr(interp, "_loop_ord", None)
+    if cache is None:
+        cache = interp._loop_ord = {}
+    key = id(fr.func.node)
+    if key not in cache:
+        cache[key] = {id(n): i for i, n in enumerate(_loops_in_order(fr.func.node))}
+    ordinal = cache[key].get(id(node))
+    return specs.get((q, ordinal))
+
+
+# ------------------------------------------------------------------------------------------------
+# havoc
+# ------------------------------------------------------------------------------------------------
+def fresh_of(interp, name, td):
+    """an arbitrary value of the described shape (not registered as a harness input)"""
+    ctx = interp.ctx
+    k = td.kind
+    if k == "int":
+        lo, hi = td.args
+        v = ctx.fresh_int(name, lo, hi)
+        return SInt(v, lo, hi, 0)
+    if k == "bool":
+        return SBool(ctx.fresh_bool(name))
+    if k in ("bytes", "bytearray"):
+        lo, hi = td.args
+        n = ctx.fresh_int("len_" + name, lo if lo is not None else 0, hi)
+        s = ctx.fresh_seq(name)
+        ctx.assume(z3.Length(s) == n)
+        return BytesV([Blk(s, n, str(s), True)], k)
+    if k == "byteslist":
+        return PyList([], prefix=z3.Const(ctx.fresh_name(name), SeqSeqSort))
+    if k == "list" and td.args[1] is None:
+        return PyList([], prefix=ctx.fresh_seq(name))
+    if k == "chunks":
+        return PyDeque([], rest=ops.mk_open_rest(ctx, ctx.fresh_seq(name), ctx.fresh_int("n_" + name, 0)))
+    raise Unsupported(f"havoc of a value described by {k}")
+
+
+def havoc(interp, fr, name, td):
+    cur = fr.locals.get(name)
+    new = fresh_of(interp, name, td)
+    if isinstance(cur, BytesV) and cur.kind == "bytearray" and isinstance(new, BytesV):
+        cur.rope = list(new.rope)      # in place: aliases see the new content
+    elif isinstance(cur, PyList) and isinstance(new, PyList):
+        cur._items = list(new._items)
+        cur.prefix = new.prefix
+    elif isinstance(cur, PyDeque) and isinstance(new, PyDeque):
+        cur._items = list(new._items)
+        cur.rest = new.rest
+    elif isinstance(cur, (Instance, PyDict)):
+        raise Unsupported(f"havoc of object-valued variable {name}")
+    else:
+        fr.locals[name] = new
+
+
+# ------------------------------------------------------------------------------------------------
+# running the contract function in assert / assume mode
+# ------------------------------------------------------------------------------------------------
+class LoopMode:
+    def __init__(self, mode, prefix):
+        self.mode = mode        # "assert" | "assume"
+        self.prefix = prefix
+        self.variant = None
+
+
+def run_spec(interp, spec, fr, mode, prefix, entry):
+    opts, f = spec
+    lm = LoopMode(mode, prefix)
+    old = getattr(interp, "loop_mode", None)
+    interp.loop_mode = lm
+    try:
+        kwargs = {}
+        for p in f.node.args.args:
+            if p.arg == "entry":
+                kwargs["entry"] = entry
+            elif p.arg in fr.locals:
+                kwargs[p.arg] = fr.locals[p.arg]
+            else:
+                raise Unsupported(f"loop contract parameter {p.arg} is not a local of the function at the loop")
+        interp.call(f, [], kwargs)
+    finally:
+        interp.loop_mode = old
+    return lm.variant
+
+
+def prim_invariant(interp, label, cond):
+    lm = getattr(interp, "loop_mode", None)
+    if lm is None:
+        raise Unsupported("invariant() outside a loop contract")
+    if lm.mode == "exit":
+        return None
+    v = interp.symtruth(cond)
+    if lm.mode == "assume":
+        if v is False:
+            raise PathInfeasible()
+        if v is not True:
+            interp.ctx.assume(v.t, check=True)
+        return None
+    ok = interp.ctx.check(f"{lm.prefix}/{label}", True if v is True else (False if v is False else v.t), kind="loop")
+    if not ok:
+        if v is False:
+            raise PathAbort()
+        if v is not True:
+            interp.ctx.assume(v.t, check=True)
+    elif isinstance(v, SBool):
+        interp.ctx.assume(v.t)
     return None
 
 
+def prim_decreases(interp, expr):
+    lm = getattr(interp, "loop_mode", None)
+    if lm is None:
+        raise Unsupported("decreases() outside a loop contract")
+    lm.variant = as_int(expr)
+    return None
+
+
+# ------------------------------------------------------------------------------------------------
+# the loop rule
+# ------------------------------------------------------------------------------------------------
+def _frame_snapshot(interp, fr, havoc_names):
+    from . import lib_models
+    memo = {}
+    snap = {}
+    for k, v in fr.locals.items():
+        if k in havoc_names:
+            continue
+        if isinstance(v, (FuncV, ClassV, ModuleV, Builtin, Dummy, BoundMethod)):
+            continue
+        snap[k] = (v, lib_models.copy_deepcopy(interp, v, memo))
+    return snap
+
+
+def _frame_check(interp, fr, snap, label):
+    from .spec_prims import same_state
+    conds = []
+    for k, (obj, copy) in snap.items():
+        cur = fr.locals.get(k, NOT_IMPLEMENTED)
+        if cur is NOT_IMPLEMENTED:
+            continue
+        if isinstance(obj, (Instance, PyList, PyDict, PyDeque)) or (isinstance(obj, BytesV) and obj.kind == "bytearray"):
+            if cur is not obj:
+                conds.append(False)
+                continue
+        try:
+            conds.append(interp.symtruth(same_state(interp, cur, copy)))
+        except Unsupported:
+            raise
+    c = ops.b_and(*conds) if conds else True
+    interp.ctx.check(label, True if c is True else (False if c is False else c.t), kind="loop",
+                     detail="a variable outside the loop contract's havoc set is modified by the loop body")
+
+
 def exec_while(interp, node, fr, spec):
-    raise Unsupported("loop invariants")
+    from .interp import BreakEx, ContinueEx
+    from . import lib_models
+    opts, f = spec
+    ctx = interp.ctx
+    hv = opts.get("havoc")
+    if hv is None:
+        hv = PyDict()
+    pairs = hv.pairs if isinstance(hv, PyDict) else list(hv.items())
+    names = [k for k, _ in pairs]
+    q = fr.func.qualname.split(":")[-1]
+    tag = f"loop {q}#{opts['ordinal']}"
+    ctx.trusted.add("loop contracts: Floyd/Hoare loop rule with havoc set checked by a frame obligation; module globals are assumed not to be modified by loop bodies")
+    entry = Instance(interp.object_cls, {k: lib_models.copy_deepcopy(interp, v) for k, v in fr.locals.items()
+                                         if not isinstance(v, (FuncV, ClassV, ModuleV, Builtin, Dummy, BoundMethod))})
+    # 1. the invariant holds on entry
+    run_spec(interp, spec, fr, "assert", tag + "/init", entry)
+    # 2. an arbitrary iteration
+    for k, td in pairs:
+        havoc(interp, fr, k, td)
+    v0 = run_spec(interp, spec, fr, "assume", tag, entry)
+    snap = _frame_snapshot(interp, fr, set(names))
+    if not interp.truth(interp.eval(node.test, fr)):
+        run_spec(interp, spec, fr, "exit", tag, entry)   # representation hints only (refine_as)
+        interp.exec_block(node.orelse, fr)
+        return
+    try:
+        interp.exec_block(node.body, fr)
+    except BreakEx:
+        return
+    except ContinueEx:
+        pass
+    # 3. preserved, variant, frame
+    v1 = run_spec(interp, spec, fr, "assert", tag + "/preserved", entry)
+    if v0 is not None and v1 is not None:
+        dec = ops.b_and(ops.cmp(">=", v0, 0), ops.cmp("<", v1, v0))
+        ctx.check(tag + "/variant", True if dec is True else (False if dec is False else dec.t), kind="loop",
+                  detail="loop variant not shown to decrease (termination)")
+    elif opts.get("terminates", True):
+        ctx.check(tag + "/variant", False, kind="loop", detail="loop contract gives no decreases() clause")
+    _frame_check(interp, fr, snap, tag + "/frame")
+    raise PathAbort()
 
 
 def exec_for(interp, node, fr, spec, it):
-    raise Unsupported("loop invariants")
+    raise Unsupported("loop contracts on for-loops")
+
+
+# ------------------------------------------------------------------------------------------------
+# ghost functions
+# ------------------------------------------------------------------------------------------------
+def _sort_of(kind):
+    return {"int": IntSort, "bool": z3.BoolSort(), "bytes": SeqSort, "intlist": SeqSort, "byteslist": SeqSeqSort}[kind]
+
+
+def encode(interp, v, kind):
+    if kind == "int":
+        return zi(as_int(v))
+    if kind == "bool":
+        v = interp.symtruth(v)
+        return z3.BoolVal(v) if isinstance(v, bool) else v.t
+    if kind == "bytes":
+        if not isinstance(v, BytesV):
+            raise Unsupported("ghost function argument is not an octet string")
+        return ops.rope_term(v.rope)
+    if kind == "intlist":
+        items = v._items if isinstance(v, PyList) else list(v)
+        parts = [] if not (isinstance(v, PyList) and v.prefix is not None) else [v.prefix]
+        parts += [z3.Unit(zi(as_int(x))) for x in items]
+        return z3.Concat(*parts) if len(parts) > 1 else (parts[0] if parts else EMPTY_SEQ)
+    if kind == "byteslist":
+        if not isinstance(v, PyList):
+            raise Unsupported("ghost function value is not a list")
+        parts = [] if v.prefix is None else [v.prefix]
+        for x in v._items:
+            if not isinstance(x, BytesV):
+                raise Unsupported("list of octet strings expected")
+            parts.append(z3.Unit(ops.rope_term(x.rope)))
+        return z3.Concat(*parts) if len(parts) > 1 else (parts[0] if parts else z3.Empty(SeqSeqSort))
+    raise Unsupported(f"ghost sort {kind}")
+
+
+def decode(interp, t, kind):
+    if kind == "int":
+        return ops.mk(t)
+    if kind == "bool":
+        return ops.mkbool(t)
+    if kind == "bytes":
+        n = interp.ctx.fresh_int("glen", 0)
+        interp.ctx.assume(z3.Length(t) == n)
+        return BytesV([Blk(t, n, str(t)[:40], True)], "bytes")
+    if kind == "intlist":
+        return PyList([], prefix=t)
+    if kind == "byteslist":
+        return PyList([], prefix=t)
+    raise Unsupported(f"ghost sort {kind}")
+
+
+class GhostFn:
+    def __init__(self, f, arg_kinds, result_kind, measure):
+        self.f = f
+        self.arg_kinds = arg_kinds
+        self.result_kind = result_kind
+        self.measure = measure
+        self.decl = z3.Function("ghost_" + f.name, *[_sort_of(k) for k in arg_kinds], _sort_of(result_kind))
+
+
+def ghost_apply(interp, g, args, kwargs):
+    if kwargs:
+        raise Unsupported("keyword arguments to a ghost function")
+    if len(args) != len(g.arg_kinds):
+        interp.throw("TypeError", f"ghost function {g.f.name} takes {len(g.arg_kinds)} arguments")
+    interp.ctx.trusted.add(f"ghost function {g.f.name}: uninterpreted, defined by well-founded recursion (obligation ghost-wf), unfolded on demand")
+    ts = [encode(interp, a, k) for a, k in zip(args, g.arg_kinds)]
+    unf = getattr(interp, "_unfolding", None)
+    if unf is not None and unf[0] is g:
+        # recursive call inside an unfolding: the measure must go down
+        m_new = as_int(interp.call(g.measure, list(args), {}))
+        dec = ops.b_and(ops.cmp(">=", m_new, 0), ops.cmp("<", m_new, unf[1]))
+        interp.ctx.check(f"ghost-wf/{g.f.name}", True if dec is True else (False if dec is False else dec.t), kind="auto",
+                         detail="recursive call of a ghost function without a decreasing measure")
+    return decode(interp, g.decl(*ts), g.result_kind)
+
+
+def unfold(interp, g, args):
+    """assume g(args) == body(args), executing the body once"""
+    lm = getattr(interp, "loop_mode", None)
+    if lm is not None and lm.mode != "assume":
+        return None   # definitional facts are only needed where the invariant is assumed
+    ts = [encode(interp, a, k) for a, k in zip(args, g.arg_kinds)]
+    m0 = as_int(interp.call(g.measure, list(args), {}))
+    old = getattr(interp, "_unfolding", None)
+    interp._unfolding = (g, m0)
+    try:
+        r = interp.call_function(g.f, list(args), {})
+    finally:
+        interp._unfolding = old
+    interp.ctx.assume(g.decl(*ts) == encode(interp, r, g.result_kind))
+    return None
